@@ -524,7 +524,7 @@ DIRS = st.tuples(ANG, U(-1.0, 1.0)).map(list)   # azimuth, sin(elevation)
 
 @st.composite
 def placements(draw):
-    kind = draw(st.sampled_from(["contact"] * 9 + ["inside"] * 3 + ["notch"] * 3 + ["free"] * 2
+    kind = draw(st.sampled_from(["contact"] * 9 + ["inside"] * 4 + ["notch"] * 3 + ["free"] * 2
                                 + ["far"] * 2))
     pl = {"kind": kind, "u": draw(DIRS), "sel": draw(st.integers(0, 63))}
     if kind == "contact":
@@ -532,7 +532,7 @@ def placements(draw):
         pl["delta"] = mag * draw(st.sampled_from([-1, 1, 1]))
         pl["which"] = draw(st.sampled_from(["outer", "outer", "pair"]))
     elif kind in ("inside", "notch"):
-        pl["rel"] = [draw(U(0.08, 0.7)) for _ in range(3)]
+        pl["rel"] = [draw(U(0.08, 0.6)) for _ in range(3)]
         pl["off"] = draw(U(0.0, 0.6))
     elif kind == "free":
         pl["frac"] = draw(U(0.0, 1.0))
@@ -553,7 +553,9 @@ def motions(draw):
 def pair_cases(draw):
     A, B = draw(objects()), draw(objects())
     pl = draw(placements())
-    if pl["kind"] == "notch":
+    if pl["kind"] == "notch" or (pl["kind"] == "inside" and draw(st.integers(0, 2)) > 0):
+        # small body inside a part / a concavity of a non-convex or multi-body solid: the
+        # configurations that the surface-collision passes cannot decide
         A["shape"] = draw(polycubes(draw(st.sampled_from(["nonconvex", "multi"]))))
     elif draw(st.integers(0, 11)) == 0:
         # both planar boxes: the 2D fast path
@@ -966,7 +968,7 @@ def run_shard(shard, tier):
     col = core.Collector(PROP, shard["id"])
     core.hyp_search(cases(), judge, shard["n"], shard["seed"], col,
                     known_sigs=shard.get("known_sigs", ()), case_timeout=120,
-                    shrink_s=60 if tier == "quick" else 240)
+                    shrink_s=20 if tier == "quick" else 240)
     if shard["n"] >= 100 and not col.failures:
         missing = [e for e in REQUIRED_EXITS if col.classes.get(e, 0) < 1]
         if missing:
